@@ -63,6 +63,7 @@ var syncKVMode bool
 func kvBackend(e *world.ExecDouble) {
 	db := dssync.MutexWrap(ds.NewMapDatastore())
 	e.Reopen = func() coreexecutor.Executor { return kvexecutor.VerifNewKVExecutor(db) }
+	e.Fresh = func() coreexecutor.Executor { return kvexecutor.VerifNewKVExecutor(dssync.MutexWrap(ds.NewMapDatastore())) }
 }
 
 func (s *syncRun) buildChain(shape [][]string) {
